@@ -111,6 +111,18 @@ func VerifC20Wide() {
 	verifAssert(vAnd(i128.Low == uint64(v), (i128.High == 0) == (v >= 0)), "int128-sign-extension")
 	verifAssert(UInt128FromUInt64(u).UInt64() == u, "uint128-from-uint64")
 	verifAssert(Int128FromUInt64(u).UInt64() == u, "int128-from-uint64")
+	// ... and denote the value they were made from (an inverse pair can agree on a wrong value):
+	// an unsigned 64-bit value is non-negative in every wider type
+	i128u := Int128FromUInt64(u)
+	verifAssert(vAnd(i128u.Low == u, i128u.High == 0), "int128-from-uint64-value")
+	u128 := UInt128FromUInt64(u)
+	verifAssert(vAnd(u128.Low == u, u128.High == 0), "uint128-from-uint64-value")
+	if v >= 0 {
+		u128i := UInt128FromInt(v)
+		verifAssert(vAnd(u128i.Low == uint64(v), u128i.High == 0), "uint128-from-nonnegative-int-value")
+		u256i := UInt256FromInt(v)
+		verifAssert(vAnd(u256i.Low.Low == uint64(v), vAnd(u256i.Low.High == 0, vAnd(u256i.High.Low == 0, u256i.High.High == 0))), "uint256-from-nonnegative-int-value")
+	}
 	i256 := Int256FromInt(v)
 	all := ^uint64(0)
 	neg := v < 0
